@@ -163,6 +163,10 @@ def make_cases(run):
     for i in range(90 if quick else 2500):
         cfg, ann, steps, d = G.gen_group_history(rng)
         cases.append(Case("groups:%s|%s|%s" % (d, ";".join(ann), ";".join(steps)), "groups", cfg, ann, steps))
+    # disallowed PUs / NUMA nodes dropped at load (cpuset != complete_cpuset, nodeset != complete_nodeset)
+    for i in range(90 if quick else 2500):
+        cfg, ann, steps, d = G.gen_disallowed_history(rng)
+        cases.append(Case("disallowed:%s|%s" % (d, ";".join(steps)), "disallowed", cfg, ann, steps))
     # generated trees: asymmetric, CPU-less NUMA nodes, memory-side caches, I/O, Misc
     for i in range(260 if quick else 6000):
         root, pus, numas = G.gen_tree(rng)
@@ -290,6 +294,12 @@ def step_problems(st):
                                                                       "next-sibling", "sibling-rank"} for k, _ in viol))
     if stale:
         viol = [("reorder-without-reconnect:wf", viol[0][1])]
+    # KEEP_STRUCTURE merge of a Group whose complete sets are wider than its single child's (they name a disallowed PU or
+    # node dropped at load): its memory children keep complete sets that are not inside their new parent's
+    wider = (not merge_order and not stale and st.get("model") == "model ok" and st.get("spec") == "spec ok" and viol
+             and all(k.startswith("wf:") and set(k[3:].split(",")) <= {"complete-cpuset-not-in-parent", "complete-nodeset-not-in-parent"} for k, _ in viol))
+    if wider:
+        viol = [("merge-memory-child-wider-complete-set:wf", viol[0][1])]
     if st.get("check") != "check ok" and stale:
         viol.append(("reorder-without-reconnect:topology_check", str(st.get("check"))))
     elif st.get("check") != "check ok":
@@ -366,7 +376,7 @@ def check(run, replay=None):
             # the topology is not well formed before any restrict step (load-time defect, C01's domain; the three known
             # causes are fixed in /repo: c78f232, 55dd5ed, 987c54a): reported, not skipped
             clauses = sorted(set(re.findall(r"([a-zA-Z-]+)@", str(r.get("init"))))) or ["topology_check"]
-            run.violation("initial-topology-not-well-formed:%s" % ",".join(clauses),
+            run.violation("initial-topology-not-well-formed:%s%s" % ("disallowed:" if c.kind == "disallowed" else "", ",".join(clauses)),
                           "topology not well formed right after load (before any restrict): %s" % c.name[:200],
                           c.replay_text() + "\n--- verdict\n%s\n%s" % (r.get("init"), r.get("initcheck")))
             continue
